@@ -134,6 +134,10 @@ pub struct Cfg {
     /// the agent's main loop and the HTTP task).
     #[serde(default)]
     pub seed: u64,
+    /// Size of the runtime -> lane request channels (0 = 4096): small values split the requests the
+    /// runtime forwards to a lane across several reads of the agent.
+    #[serde(default)]
+    pub lane_in_buf: usize,
 }
 
 impl Cfg {
@@ -158,6 +162,7 @@ impl Cfg {
             restart: false,
             extra: String::new(),
             seed: 0,
+            lane_in_buf: 0,
         }
     }
 }
@@ -603,7 +608,9 @@ impl World for AsWorld {
         let lane_buf = NonZeroUsize::new(cfg.lane_buf).unwrap();
         // only the lane -> runtime direction is made small: requests must be able to queue up in front
         // of the agent while its writes are held back
-        let lane_config = LaneConfig { input_buffer_size: NonZeroUsize::new(4096).unwrap(), output_buffer_size: lane_buf, ..Default::default() };
+        // (configurations with `lane_in_buf` also make the request direction small: a request is then
+        // split across several reads of the agent)
+        let lane_config = LaneConfig { input_buffer_size: NonZeroUsize::new(if cfg.lane_in_buf == 0 { 4096 } else { cfg.lane_in_buf }).unwrap(), output_buffer_size: lane_buf, ..Default::default() };
         let config = CombinedAgentConfig {
             agent_config: AgentConfig { default_lane_config: Some(lane_config), ..AgentConfig::DEFAULT },
             runtime_config: AgentRuntimeConfig {
